@@ -1,6 +1,7 @@
 package main
 
 import (
+	"encoding/json"
 	"fmt"
 	"math/rand"
 	"net"
@@ -277,8 +278,39 @@ func runC16Seg(o *opts) (*summary, error) {
 			w.put(doCall(u, d, cs), "segment-rule", argKey(cs))
 		}
 	}
+	// profiles that come out of json.Unmarshal (read from a file, several of them before any is used): decode A (the pair
+	// under test), decode B (the same pair reversed - the opposite verdict), then SetTimeProfile(A), SetTimeProfile(B): each is
+	// accepted or refused for what ITS document says
+	plainSegments = true
+	defer func() { plainSegments = false }()
+	for i, s := range hh {
+		for j, e := range hh {
+			if o.tier != "thorough" && (i+j)%3 != 0 {
+				continue
+			}
+			csA := timeProfileCall(g, false, false, 0, s, e)
+			pA, snA := lastProfile, lastSerial
+			csB := timeProfileCall(g, false, false, 0, e, s)
+			pB, snB := lastProfile, lastSerial
+			docA, errA := json.Marshal(pA)
+			docB, errB := json.Marshal(pB)
+			var a, b types.TimeProfile
+			if errA != nil || errB != nil || json.Unmarshal(docA, &a) != nil || json.Unmarshal(docB, &b) != nil {
+				continue // (that documents round-trip is C14's subject)
+			}
+			csA.call = func(u uhppote.IUHPPOTE) (any, error) { return u.SetTimeProfile(snA, a) }
+			csB.call = func(u uhppote.IUHPPOTE) (any, error) { return u.SetTimeProfile(snB, b) }
+			w.put(doCall(u, d, csA), "segment-rule-decoded", "dec|"+argKey(csA))
+			w.put(doCall(u, d, csB), "segment-rule-decoded", "dec|"+argKey(csB))
+		}
+	}
 	return w.close(), nil
 }
+
+// (the profile / controller of the call timeProfileCall built last; plainSegments: segments 1..3 only)
+var lastProfile types.TimeProfile
+var lastSerial uint32
+var plainSegments bool
 
 func timeProfileCall(g *G, fromZero, toZero bool, missing, s, e int) callSpec {
 	serial := g.serial()
@@ -319,7 +351,7 @@ func timeProfileCall(g *G, fromZero, toZero bool, missing, s, e int) callSpec {
 		ps = append(ps, []any{k, segPair(pst, pen)})
 	}
 	// entries under keys that are no segment numbers: a map with three (or more) entries that still lacks segment 1, 2 or 3
-	if g.r.Intn(2) == 0 {
+	if !plainSegments && g.r.Intn(2) == 0 {
 		for _, k := range []uint8{0, 4, 5, 255} {
 			if g.r.Intn(2) == 0 {
 				continue
@@ -334,6 +366,7 @@ func timeProfileCall(g *G, fromZero, toZero bool, missing, s, e int) callSpec {
 	id, linked := g.u8(), g.u8b(1)
 	profile := types.TimeProfile{ID: id, LinkedProfileID: linked, From: from, To: to, Weekdays: wd, Segments: segs}
 	a := M{"serial": u32(serial), "profile": M{"id": int(id), "linked": int(linked), "from": pf, "to": pt, "weekdays": pw, "segments": ps}}
+	lastProfile, lastSerial = profile, serial
 	return callSpec{op: "SetTimeProfile", args: a, call: func(u uhppote.IUHPPOTE) (any, error) { return u.SetTimeProfile(serial, profile) }}
 }
 
